@@ -10,12 +10,13 @@ def outcome_kind(v):
     return v.kind if isinstance(v, Err) else "value"
 
 
-def correspond(ctx, name, reqs, canon=None, jobs=8, nontrivial=None):
-    """returns list of (index, req, model_result, impl_result) that disagree"""
+def correspond(ctx, name, reqs, canon=None, jobs=8, nontrivial=None, impl_reqs=None):
+    """returns list of (index, req, model_result, impl_result) that disagree.  impl_reqs (optional, same length): what the
+    implementation is asked instead, e.g. the same request after earlier calls in the same process (implrunner op `after`)"""
     if not reqs:
         return []
     m = run_model(reqs, jobs=jobs)
-    i = run_impl(reqs, jobs=jobs)
+    i = run_impl(impl_reqs if impl_reqs is not None else reqs, jobs=jobs)
     diffs = []
     kinds = collections.Counter()
     sizes = collections.Counter()
@@ -30,11 +31,12 @@ def correspond(ctx, name, reqs, canon=None, jobs=8, nontrivial=None):
             # CPython's recursion limit is a resource bound the model does not have: counted, not compared
             limited += 1
             continue
+        shown = rq if impl_reqs is None else impl_reqs[k]
         if isinstance(a, Err) and a.kind in MODEL_FAULTS:
-            diffs.append((k, rq, a, b))
+            diffs.append((k, shown, a, b))
             continue
         if a != b:
-            diffs.append((k, rq, a, b))
+            diffs.append((k, shown, a, b))
         elif nontrivial is None or nontrivial(rq, b):
             distinct.add(enc(b) if not isinstance(b, Err) else enc(rq[1]))
     st = ctx.cov["correspondence"].setdefault(name, {"cases": 0, "disagreements": 0, "outcomes": {},
@@ -89,4 +91,24 @@ def history_witnesses(diffs):
             if isinstance(r, Err) or r:
                 out.append({"key": {"seq": rq[1][0], "struct": "".join(rq[1][1]), "ops": rq[1][2]}, "input": {"history": rq[1]},
                             "what": str(r), "snippet": f"# harness op c03_fresh_compare {rq[1]!r} (harness/impl/views.py)"})
+    return out
+
+
+def after_witnesses(diffs, canon=None):
+    """disagreements of `after` requests (an operation after earlier calls of the same operation in one process): when the
+    first call in a fresh process gives another answer than the call after that history, the operation's answer depends on
+    earlier, independent calls - a failing history of the property"""
+    from common import run_impl
+    out = []
+    for d in [d for d in diffs if d[1][0] == "after"][:10]:
+        name, earlier, args = d[1][1]
+        fresh = run_impl([(name, args)], jobs=1)[0]
+        again = run_impl([d[1]], jobs=1)[0]
+        if canon:
+            fresh, again = canon(name, fresh), canon(name, again)
+        if fresh != again:
+            out.append({"key": {"after": [name, earlier, args]}, "input": {"after": [name, earlier, args]},
+                        "what": f"{name}{args!r} answers {again!r} after the earlier calls {earlier!r} in the same process, "
+                                f"but {fresh!r} as a first call",
+                        "snippet": f"# harness op after {[name, earlier, args]!r} (harness/implrunner.py)"})
     return out
